@@ -263,6 +263,22 @@ def check_pair(case, ctx):
     if want > cands[0]:
         ctx.nontrivial(('sub', case['s'], case['t']), 'substring-beats-whole')
 
+    # the gap symbol is a parameter: with another one ('-') the alignment is the same alignment written with that symbol
+    if r == 'int' and len(s) + len(t) <= 6:
+        al_d = sa.levenshtein_alignment_substring(list(s), list(t), empty_symbol='-')
+        al_n = sa.levenshtein_alignment_substring(list(s), list(t))
+        ctx.executed(2)
+        if [(('-' if a is None else a), ('-' if b is None else b)) for a, b in al_n] != [tuple(x) for x in al_d]:
+            ctx.violation('alignment-projects-onto-inputs', f'{K}/substring-alignment/other-gap-symbol',
+                          f'levenshtein_alignment_substring({s!r},{t!r}, empty_symbol="-") = {al_d!r}, with the default gap symbol {al_n!r}')
+        for fn in ('levenshtein_alignment',):
+            a_d = getattr(sa, fn)(list(s), list(t), empty_symbol='-') if 'empty_symbol' in getattr(sa, fn).__code__.co_varnames else None
+            if a_d is not None:
+                a_n = getattr(sa, fn)(list(s), list(t))
+                ctx.executed(2)
+                if [(('-' if a is None else a), ('-' if b is None else b)) for a, b in a_n] != [tuple(x) for x in a_d]:
+                    ctx.violation('alignment-projects-onto-inputs', f'{K}/alignment/other-gap-symbol', f'{fn}({s!r},{t!r}, empty_symbol="-") = {a_d!r}, default {a_n!r}')
+        ctx.tag('other-gap-symbol')
     al = sa.levenshtein_alignment_substring(list(s), list(t))
     ctx.executed()
     p1 = [a for a, b in al if a is not None]
@@ -344,6 +360,16 @@ def check_agg(case, ctx):
         bad = [k for k in want if got[k] != want[k]]
         ctx.violation('aggregation-is-plain-addition', f'{ID}/aggregate/{"+".join(bad)}',
                       f'aggregate over {case["items"]}: got {got}, field-wise sum {want}')
+    # the summaries may come as any iterable (a generator over pages, an iterator): same totals
+    for how, it in (('generator', (e for e in items)), ('iterator', iter(items)), ('tuple', tuple(items))):
+        g2 = summary_fields(ErrorsSummary.aggregate(it))
+        ctx.executed()
+        g2['conf'] = [(k, [tuple(x) for x in c]) for k, c in g2['conf']]
+        if g2 != want:
+            bad = [k for k in want if g2[k] != want[k]]
+            ctx.violation('aggregation-is-plain-addition', f'{ID}/aggregate-of-a-{how}/{"+".join(bad)}',
+                          f'aggregate over a {how} of {case["items"]}: got {g2}, field-wise sum {want}')
+            return
     if before != after:
         ctx.violation('aggregation-is-plain-addition', f'{ID}/aggregate/mutates-inputs',
                       f'aggregate changed its inputs: {before} -> {after}')
@@ -385,5 +411,5 @@ def describe(tier):
                         'for equal-length inputs either sequence may play the role of "the longer sequence"',
                         'sequences longer than the bound and costs above 4 are not explored'],
         'min_nontrivial': 10,
-        'required_tags': ['optimum-beats-diagonal', 'substring-beats-whole', 'aggregate-of-several', 'other-containers', 'sequences-longer-than-255'],
+        'required_tags': ['optimum-beats-diagonal', 'substring-beats-whole', 'aggregate-of-several', 'other-containers', 'sequences-longer-than-255', 'other-gap-symbol'],
     }
